@@ -20,7 +20,7 @@ _EOF = bytes.fromhex("1f8b08040000000000ff0600424302001b0003000000000000000000")
 
 
 def bgzf_block(data):
-    assert len(data) < 65000
+    assert len(data) <= 65280
     co = zlib.compressobj(6, zlib.DEFLATED, -15)
     comp = co.compress(data) + co.flush()
     bsize = len(comp) + 25
